@@ -20,7 +20,7 @@ from .common import coqbool, zl, zlist
 PROP = 'C16'
 
 HEADER = """From Coq Require Import String ZArith List Bool.
-From PB Require Import lib.CaseUtil C01.Wrapper C16.SigTable C16.Bind C16.Model gen.GenSigs.
+From PB Require Import lib.CaseUtil C01.Wrapper C16.SigTable C16.Bind C16.Model C16.PerPoint gen.GenSigs.
 Import ListNotations.
 Open Scope string_scope.
 Open Scope Z_scope.
@@ -408,6 +408,123 @@ Definition ok (c : Z * option dtype * desc Z * Z * option (dtype * list Z * list
     ctx.note(f'normalisation correspondence: {len(lits)} descriptors ({n_acc} accepted)')
 
 
+# ====================================================================== B2. per-point arguments at the _setup_* boundary
+SETUP_NAMES = ['_setup_whittaker', '_setup_polynomial', '_setup_spline', '_setup_classification']
+
+
+def corr_setups(ctx):
+    """The weight array handed to the method bodies by the REAL _setup_* functions (1-D and 2-D) versus
+    `setup_weights` interpreting the translated table entry, on a (container, layout, dtype, shape) grid."""
+    from pybaselines import Baseline, Baseline2D
+    rng = ctx.rng
+    lits = []
+    n_acc = n_skip = 0
+    variants = [('CArray', 'LC', 'F64'), ('CArray', 'LF', 'F64'), ('CArray', 'L2', 'F64'), ('CList', 'LC', 'F64'),
+                ('CTuple', 'LC', 'I64'), ('CArray', 'LF', 'I64'), ('CArray', 'LC', 'F32'), ('CArray', 'L3', 'I32'),
+                ('CArray', 'LF', 'F32'), ('CArray', 'LC', 'U8'), ('CList', 'LC', 'I64'), ('CArray', 'L2', 'I8')]
+    for two_d in (False, True):
+        for k, sname in enumerate(SETUP_NAMES):
+            idx = k + (4 if two_d else 0)
+            if two_d:
+                sizes = [(5, 7), (6, 4), (5, 5)]
+            else:
+                sizes = [(14,), (21,)]
+            for size in sizes:
+                if two_d:
+                    Mx, Nz = size
+                    shapes = [(Mx, Nz)] * 4 + [(Nz, Mx), (Mx, Nz, 1), (Nz,), (Mx * Nz,), (), (1, Mx, Nz), (Mx, 1)]
+                else:
+                    N = size[0]
+                    shapes = [(N,), (N, 1), (1, N)] * 2 + [(N + 1,), (2, N), (N, 2), (), (1, 1, N), (1,)]
+                for shape in shapes:
+                    combos = variants if ctx.tier == 'thorough' else rng.sample(variants, 4)
+                    for cont, layout, dt in combos:
+                        if shape == () and cont != 'CArray':
+                            continue
+                        kk = int(layout[1]) if layout[1:].isdigit() else 1
+                        need = int(np.prod([kk * s_ for s_ in shape])) if shape else 1
+                        mem = [rng.randint(0, 3) for _ in range(need)]
+                        obj = build_variant(cont, layout, dt, shape, mem)
+                        svd = two_d and sname == '_setup_whittaker' and rng.random() < 0.5
+                        if two_d:
+                            fit = Baseline2D(np.linspace(0, 1, size[0]), np.linspace(2, 5, size[1]))
+                            y = np.arange(size[0] * size[1], dtype=float).reshape(size)
+                        else:
+                            fit = Baseline(np.linspace(0, 1, size[0]))
+                            y = np.arange(size[0], dtype=float)
+                        kw = {'weights': obj}
+                        if two_d and sname == '_setup_whittaker':
+                            kw['num_eigens'] = (3, 3) if svd else None
+                        try:
+                            with warnings.catch_warnings():
+                                warnings.simplefilter('ignore')
+                                w = getattr(fit, sname)(y, **kw)[1]
+                            w = np.asarray(w)
+                            exp_dt = {'float64': 0, 'bool': 1}.get(w.dtype.name, 2)
+                            vals = [int(v) for v in w.flatten(order='C')]
+                            exp = f'(Some ({exp_dt}, {zlist(w.shape)}, {zlist(vals)}))'
+                            ek = 0
+                            n_acc += 1
+                        except TypeError:
+                            exp, ek = 'None', 1
+                        except ValueError:
+                            exp, ek = 'None', 2
+                        except Exception:  # noqa  (e.g. an accepted but unusable shape fails further down the setup)
+                            n_skip += 1
+                            continue
+                        ctx.case(('setup', two_d, sname, size, shape, cont, layout, dt, tuple(mem), svd), nontrivial=len(shape) >= 1,
+                                 kind=f'setup:{"2d" if two_d else "1d"}:{sname}:{"ok" if ek == 0 else "err"}')
+                        lits.append(f'({idx}%nat, {zlist(size)}, {coqbool(svd)}, {desc_lit(cont, layout, dt, shape, mem)}, {ek}, {exp})')
+    ctx.sample({'kind': 'setup-weights-case', 'literal': lits[len(lits) // 2][:300]})
+    names = '[' + '; '.join(f'({coqbool(i >= 4)}, {cstr(n)})' for i, n in enumerate(SETUP_NAMES * 2)) + ']'
+    body = """
+Definition flat_vals (a : nd Z) : list Z := map (flat a) (map Z.of_nat (seq 0 (Z.to_nat (prodZ (nd_shape a))))).
+Definition errk (r : vres Z) : Z := match r with VOk _ => 0 | VTypeErr => 1 | VValueErr => 2 end.
+Definition dtk (t : wdtype) : Z := match t with WFloat => 0 | WBool => 1 | _ => 2 end.
+Definition expected_setups : list (bool * string) := %s.
+Definition ok (c : nat * list Z * bool * desc Z * Z * option (Z * list Z * list Z)) : bool :=
+  let '(i, size, svd, d, ek, exp) := c in
+  match nth_error setups i with
+  | None => false
+  | Some e =>
+    let r := setup_weights e size svd (as_nd d) in
+    (errk r =? ek) &&
+    match r, exp with
+    | VOk a, Some (t, s', v') => (dtk (su_dtype e) =? t) && zl_eqb (nd_shape a) s' && zl_eqb (flat_vals a) v'
+    | VOk _, None => false
+    | _, None => true
+    | _, _ => false
+    end
+  end.
+""" % names
+    bad_any = False
+    per = 400
+    for k in range(0, len(lits), per):
+        sh = lits[k:k + per]
+        text = HEADER + body + ('Definition cases : list (nat * list Z * bool * desc Z * Z * option (Z * list Z * list Z)) := [\n'
+                                + ';\n'.join('  ' + l for l in sh) + '\n].\n')
+        text += 'Eval vm_compute in (bad ok cases).\n'
+        if k == 0:
+            text += ('Eval vm_compute in (if forallb (fun p => Bool.eqb (su_two_d (fst p)) (fst (snd p)) && '
+                     'String.eqb (su_name (fst p)) (snd (snd p))) (combine setups expected_setups) '
+                     '&& Nat.eqb (length setups) 8 then 0%nat else 1%nat, @nil nat).\n')
+        vals = ctx.coq_eval(f'setup{k // per}', text)
+        if vals is None:
+            bad_any = True
+        elif not is_zero(vals) or (k == 0 and (len(vals) < 2 or not is_zero(vals[1:2]))):
+            bad_any = True
+            ctx.broke(f'correspondence:setup-weights-shard{k // per}',
+                      'the weight array returned by the real _setup_* functions differs from the model interpreting the '
+                      f'translated table (dtype, shape, row-major values): {[v[:200] for v in vals[:2]]}')
+    ctx.obligations.append('correspondence:_setup_*-weights')
+    if not bad_any:
+        ctx.discharged.append('correspondence:_setup_*-weights')
+    ctx.note(f'per-point correspondence: {len(lits)} weight descriptors through the 8 _setup_* functions ({n_acc} accepted, '
+             f'{n_skip} skipped because the setup failed after the validation); the re-ordering by _sort_order (C02) and '
+             'alpha of aspls (validated in the method, dtype kept) are not in this model')
+
+
+
 def nox_data_kinds(N, two_d=False):
     """data of every dtype / container / shape class used elsewhere, holding small integers."""
     if two_d:
@@ -691,7 +808,9 @@ class Oracle:
             if bb.shape != ww.shape or bb.dtype != ww.dtype:
                 what = f'shape/dtype {bb.shape}/{bb.dtype} versus {ww.shape}/{ww.dtype}'
             else:
-                what = f'max abs difference {float(np.nanmax(np.abs(bb.astype(float) - ww.astype(float)))):.3g}'
+                with warnings.catch_warnings():
+                    warnings.simplefilter('ignore')
+                    what = f'max abs difference {float(np.nanmax(np.abs(bb.astype(float) - ww.astype(float)))):.3g}'
             ctx.fail(key, f'{dim} {name}: baseline of the {tag} variant differs from the canonical call ({what})', case)
             return False
         if want_p is not None and not params_same(p, want_p):
@@ -994,6 +1113,9 @@ def run(ctx):
         'evidence.weak_defaults and exercised by the oracle (function-defaults)',
         'str.lower() is modelled on ASCII; linspace(-1,1,N) is modelled exactly (2i-n)/n, its float rounding is NumPy\'s',
         'the numerical method bodies: C16 proves that they receive identical inputs, the oracle checks the outputs bit for bit',
+        'per-point arguments: the model interprets the translated _check_optional_array call and ravel of the eight _setup_* '
+        'functions and is compared with the arrays the real _setup_* functions return; the re-ordering by _sort_order (C02), '
+        'alpha of aspls / pspline_aspls and weights validated inside individual methods are covered by the oracle only',
     ]
     ctx.gate()
     ctx.translate(['GenSigs'])
@@ -1001,6 +1123,7 @@ def run(ctx):
     if ok:
         weak = corr_binding(ctx)
         corr_normalise(ctx)
+        corr_setups(ctx)
         corr_no_x(ctx)
         if weak:
             ctx.note(f'==-equal defaults of different numeric type (function versus method): {weak}')
